@@ -70,7 +70,8 @@ CHECKS = {
         "every single and pair of masked cells and grid deviations, and all images over a 3-symbol alphabet on the "
         "smallest shapes are run through allocate_cost_volume/validity_mask/compute_cost_volume/cv_masked; each cost and "
         "each NaN is compared with the documented measure (exact for sad/ssd/census, atol for zncc).",
-        "Trusted: mc/ref/cost.py; integer radiometry; images at least one window large.",
+        "Trusted: mc/ref/cost.py; integer radiometry, also scaled exactly (12-bit, 2^-20, level 20000 with a dozen grey "
+        "levels of texture); images at least one window large.",
         "E1",
     ),
     "C04": (
@@ -144,7 +145,9 @@ CHECKS = {
         "All 3x3 (3x4) maps over {values, invalid via each bit} and position-coded maps of every shape around the 50/100 "
         "pixel block sizes are filtered by median / bilateral / median_for_intervals and compared pixel by pixel with a "
         "per-pixel reference: mask unchanged, invalid and border pixels untouched, median exact, bilateral rtol 1e-5.",
-        "Trusted: mc/ref/filters.py; bilateral restricted to odd window widths.",
+        "Trusted: mc/ref/filters.py; for even bilateral windows both placements of the centre-less window are accepted; "
+        "where median_for_intervals meets invalid pixels with finite bounds both readings of the band median are "
+        "accepted; caller arrays in C, Fortran and strided layouts.",
         "E1",
     ),
     "C11": (
@@ -174,7 +177,8 @@ CHECKS = {
         "Each case is one whole-image run, one flipped run and 6 (quick) / up to 96 (thorough) crop runs; every pixel whose "
         "conservatively computed dependency cone lies inside the crop must have bit-identical disparity and flags; "
         "compared-pixel counts are reported.",
-        "Trusted: mc/ref/cone.py (conservative cone); integer radiometry.",
+        "Trusted: mc/ref/cone.py (conservative cone); integer radiometry; tiles handed over as copies, zero-copy "
+        "windows of a larger array, or column-major arrays.",
         "E1",
     ),
     "C14": (
